@@ -318,6 +318,49 @@ int cmd_nearmate_pool(const Args& a)
             }
         }
     }
+    // ---- quietsave: after a move of the attacker, every capture / promotion of the defender runs into a mate in one while a quiet
+    //      move does not: a search that skips the quiet moves of a node (far below alpha) must not call the node mated
+    long nqs = 0;
+    {
+        const long want = a.i("quietsave", 0);
+        long t3 = 0;
+        while (nqs < want && t3 < max_tries)
+        {
+            t3++;
+            std::string f = random_attack_fen(rng);
+            if (f.empty()) continue;
+            Position p(f);
+            if (p.is_in_check(p.color())) continue;
+            MoveVec mv;
+            mv.gen(p);
+            bool found = false;
+            for (int i = 0; i < mv.n && !found; ++i)
+            {
+                MoveInfo mi = p.do_move(mv.list[i]);
+                if (!p.is_in_check(p.color()))
+                {
+                    MoveVec dv;
+                    dv.gen(p);
+                    int loud = 0, loud_mated = 0, quiet_ok = 0;
+                    for (int j = 0; j < dv.n; ++j)
+                    {
+                        bool quiet = castling(dv.list[j]) != NO_CASTLING || (p.piece_at(to(dv.list[j])) == NO_PIECE && promotion(dv.list[j]) == NO_PIECE_KIND &&
+                                                                            !(make_piece_kind(p.piece_at(from(dv.list[j]))) == PAWN && to(dv.list[j]) == p.enpassant_square()));
+                        MoveInfo dj = p.do_move(dv.list[j]);
+                        bool m1 = mate_in_one(p);
+                        p.undo_move(dv.list[j], dj);
+                        if (quiet) { if (!m1) quiet_ok++; }
+                        else { loud++; if (m1) loud_mated++; }
+                    }
+                    if (loud >= 1 && loud == loud_mated && quiet_ok >= 1) found = true;
+                }
+                p.undo_move(mv.list[i], mi);
+            }
+            if (!found) continue;
+            nqs++;
+            emit(o, p, "nm-quietsave", &n, false);
+        }
+    }
     // ---- dpush: the side to move is in check by a slider and a DOUBLE pawn push is among its (few) evasions; emitted with the
     //      predecessors in which the attacker is about to give that check (a generator that forgets such evasions sees a mate)
     long ndp = 0;
